@@ -398,6 +398,12 @@ func (g *Gen) callStatic(st *BState, in ssa.Instruction, callee *ssa.Function, a
 		con = g.eng.contractFor(callee, "")
 	}
 	name := shortFuncName(callee.String())
+	if con == nil && g.eng.isTarget(callee) {
+		if tgt, margs, ok := g.eng.forwarder(callee, args); ok {
+			g.callStatic(st, in, tgt, margs, v, guard)
+			return
+		}
+	}
 	if con == nil && !g.eng.isTarget(callee) {
 		if variant != "" {
 			g.fatalf("external callee %s [%s] has no contract", name, variant)
@@ -424,6 +430,11 @@ func (g *Gen) callStatic(st *BState, in ssa.Instruction, callee *ssa.Function, a
 	if callee.Pkg != nil {
 		env.pkg = callee.Pkg.Pkg
 	}
+	if con != nil && !con.FromRepo && con.PkgPath != "" {
+		if tp := g.eng.typesPkg(con.PkgPath); tp != nil {
+			env.pkg = tp
+		}
+	}
 	env.callee = callee
 	argVals := map[string]EnvVal{}
 	for i, p := range params {
@@ -442,6 +453,10 @@ func (g *Gen) callStatic(st *BState, in ssa.Instruction, callee *ssa.Function, a
 	rec := &callRecord{callee: name, n: g.callCount[name], pre: pre, args: argVals}
 	g.calls = append(g.calls, rec)
 	a, pos := g.anchor(in.Pos())
+	calleeInv := g.eng.participates(callee) && g.fn.Pkg != nil && callee.Pkg != nil && g.fn.Pkg.Pkg == callee.Pkg.Pkg
+	if calleeInv {
+		g.checkPkgInvs(st, "P", a+":pkginv:", pos, guard)
+	}
 	if con != nil {
 		g.bindLets(con, env)
 		for _, r := range con.Requires {
@@ -453,11 +468,41 @@ func (g *Gen) callStatic(st *BState, in ssa.Instruction, callee *ssa.Function, a
 			g.assume(st, t)
 		}
 	}
+	// make sure every region the contract talks about exists before the frame is computed
+	if con != nil {
+		scratch := g.baseEnv(st.heap.clone(), pre.clone())
+		scratch.pkg = env.pkg
+		scratch.callee = callee
+		for k, ev := range env.vars {
+			scratch.vars[k] = ev
+		}
+		g.bindLets(con, scratch)
+		var rts []string
+		var rtys []types.Type
+		for i := 0; i < callee.Signature.Results().Len(); i++ {
+			t := callee.Signature.Results().At(i).Type()
+			rts = append(rts, zeroOf(t))
+			rtys = append(rtys, t)
+		}
+		g.bindResults(scratch, callee, rts, rtys)
+		nf := len(g.fatal)
+		for _, e := range con.Ensures {
+			g.trBool(e.Expr, scratch, e)
+		}
+		g.fatal = g.fatal[:nf]
+	}
 	// frame: havoc written regions
 	ws, targets := g.calleeWrites(callee, con, env)
 	post := st.heap
 	alPre := g.heapGet(pre, g.allocRegion())
-	for _, k := range sortedKeys(ws) {
+	wkeys := sortedKeys(ws)
+	for i, k := range wkeys {
+		if k == "alloc" { // the allocation map first: the frames of the other regions refer to its new version
+			copy(wkeys[1:i+1], wkeys[:i])
+			wkeys[0] = "alloc"
+		}
+	}
+	for _, k := range wkeys {
 		r := g.regionByKey(k)
 		if r == nil {
 			continue
@@ -478,10 +523,10 @@ func (g *Gen) callStatic(st *BState, in ssa.Instruction, callee *ssa.Function, a
 			for _, t := range tg {
 				ne = append(ne, fmt.Sprintf("(not (= r %s))", t))
 			}
-			g.assume(st, fmt.Sprintf("(forall ((r Int)) (! (=> (and (select %s r) %s) (= (select %s r) (select %s r))) :pattern ((select %s r))))", alPre, strings.Join(ne, " "), n, old, n))
+			g.assume(st, fmt.Sprintf("(forall ((r Int)) (! (=> (or (and (select %s r) %s) %s) (= (select %s r) (select %s r))) :pattern ((select %s r))))", alPre, strings.Join(ne, " "), g.notFreshOf(r, post), n, old, n))
 			g.callFrameCheck(st, r, tg, in.Pos())
 		case !ws[k]:
-			g.assume(st, fmt.Sprintf("(forall ((r Int)) (! (=> (select %s r) (= (select %s r) (select %s r))) :pattern ((select %s r))))", alPre, n, old, n))
+			g.assume(st, fmt.Sprintf("(forall ((r Int)) (! (=> (or (select %s r) %s) (= (select %s r) (select %s r))) :pattern ((select %s r))))", alPre, g.notFreshOf(r, post), n, old, n))
 		default:
 			g.callFrameCheck(st, r, []string{"*"}, in.Pos())
 		}
@@ -518,6 +563,7 @@ func (g *Gen) callStatic(st *BState, in ssa.Instruction, callee *ssa.Function, a
 		for k, ev := range env.vars {
 			penv.vars[k] = ev
 		}
+		g.bindLets(con, penv)
 		g.bindResults(penv, callee, rterms, rtypes)
 		for _, e := range con.Ensures {
 			t := g.trBool(e.Expr, penv, e)
@@ -528,6 +574,13 @@ func (g *Gen) callStatic(st *BState, in ssa.Instruction, callee *ssa.Function, a
 		}
 	}
 	g.specialCallFacts(st, callee, args, rterms)
+	if calleeInv && guard == "true" {
+		g.assumePkgInvs(st, callee)
+	} else if calleeInv {
+		for _, gi := range g.pkgInvs(callee) {
+			g.assume(st, fmt.Sprintf("(=> %s %s)", guard, g.invInstance(gi, callee, st.heap)))
+		}
+	}
 	rec.pcAfter = st.pc
 	if v != nil {
 		switch len(rterms) {
@@ -650,6 +703,9 @@ func (g *Gen) calleeWrites(callee *ssa.Function, con *Contract, env *Env) (map[s
 			for k, w := range g.eng.writeSet(callee) {
 				if _, ok := ws[k]; !ok {
 					_ = w
+					if _, known := g.regions[k]; !known {
+						continue // a region this function never mentions
+					}
 					ws[k] = false // only on fresh objects (guaranteed by the callee's own F obligations)
 				}
 			}
@@ -880,6 +936,14 @@ func wrapArgIndex(format string) int {
 
 func (g *Gen) doReturn(st *BState, in *ssa.Return) {
 	g.retCount++
+	{
+		_, pos := g.anchor(in.Pos())
+		if pos == "" {
+			pos = g.posString(g.fn.Pos())
+		}
+		rst := &BState{heap: st.heap, pc: st.pc, inv: cloneInv(st.inv)}
+		g.checkPkgInvs(rst, "Q", fmt.Sprintf("return%d:pkginv:", g.retCount), pos, "true")
+	}
 	if g.con == nil {
 		return
 	}
@@ -943,4 +1007,89 @@ func (g *Gen) bindCallBindings(env *Env) {
 		}
 		env.labels[fmt.Sprintf("%s#%d", short, r.n)] = r
 	}
+}
+
+// forwarder: a contract-less function of the target packages whose body is a single call of a static
+// callee with its own parameters (or constants) as arguments, returning that call's results unchanged.
+// A call of such a function is verified as a call of the inner callee (one level of inlining).
+func (e *Engine) forwarder(fn *ssa.Function, args []ssa.Value) (*ssa.Function, []ssa.Value, bool) {
+	if len(fn.Blocks) == 0 || len(fn.Blocks) > 2 {
+		return nil, nil, false
+	}
+	if len(fn.Blocks) == 2 && len(fn.Blocks[1].Preds) != 0 {
+		return nil, nil, false
+	}
+	var call *ssa.Call
+	var ret *ssa.Return
+	extracts := map[ssa.Value]int{}
+	for _, in := range fn.Blocks[0].Instrs {
+		switch x := in.(type) {
+		case *ssa.DebugRef:
+		case *ssa.Call:
+			if call != nil {
+				return nil, nil, false
+			}
+			call = x
+		case *ssa.Extract:
+			if call == nil || x.Tuple != ssa.Value(call) {
+				return nil, nil, false
+			}
+			extracts[x] = x.Index
+		case *ssa.Return:
+			ret = x
+		default:
+			return nil, nil, false
+		}
+	}
+	if call == nil || ret == nil || call.Call.IsInvoke() || call.Call.StaticCallee() == nil {
+		return nil, nil, false
+	}
+	if _, isB := call.Call.Value.(*ssa.Builtin); isB {
+		return nil, nil, false
+	}
+	switch len(ret.Results) {
+	case 0:
+	case 1:
+		if ret.Results[0] != ssa.Value(call) {
+			return nil, nil, false
+		}
+	default:
+		for i, r := range ret.Results {
+			if idx, ok := extracts[r]; !ok || idx != i {
+				return nil, nil, false
+			}
+		}
+	}
+	var margs []ssa.Value
+	for _, a := range call.Call.Args {
+		switch x := a.(type) {
+		case *ssa.Parameter:
+			idx := -1
+			for i, p := range fn.Params {
+				if p == x {
+					idx = i
+				}
+			}
+			if idx < 0 || idx >= len(args) {
+				return nil, nil, false
+			}
+			margs = append(margs, args[idx])
+		case *ssa.Const:
+			margs = append(margs, x)
+		default:
+			return nil, nil, false
+		}
+	}
+	return call.Call.StaticCallee(), margs, true
+}
+
+// notFreshOf: condition (over bound variable r) under which r cannot be an object of region's type that
+// the callee allocated: r is still unallocated afterwards, or (for struct field regions) r was not
+// allocated as that struct type.
+func (g *Gen) notFreshOf(r *Region, post Heap) string {
+	alPost := g.heapGet(post, g.allocRegion())
+	if r.Kind == "field" && r.StructTag > 0 {
+		return fmt.Sprintf("(not (select %s r)) (not (= (rtype r) %d))", alPost, r.StructTag)
+	}
+	return fmt.Sprintf("(not (select %s r))", alPost)
 }
